@@ -58,7 +58,7 @@ func init() {
 	hprop("C08", histRule+"plus submissions chosen adversarially relative to the current state (orphan, duplicate of any known header, fork exactly at / one beyond MaxBranchDepth, extension of a deep side tip, fork of a side branch) for MaxBranchDepth in {0,1,2,3,4,6,8,144}; every verdict is compared with the reference verdict and after every non-accepting answer all observables (and, sampled, the bytes of a subsequent Save) must be identical; non-trivial = at least one reorganisation or adversarial refusal",
 		25, 900, []string{"adv-orphan", "adv-duplicate-on-side-branch", "adv-duplicate-best-interior", "adv-fork-exactly-at-max-depth", "adv-fork-one-beyond-max-depth", "adv-extend-deep-side-tip", "adv-fork-of-side-branch", "save-compared-after-refusal", "refusal:unknown-parent", "refusal:beyond-depth"}, nil, "exploration",
 		hw.Opts{Groups: groups("c08"), MinSteps: 4, MaxSteps: 50, SmallPrune: true, LargeEvery: 60,
-			WMint: 40, WDeliver: 15, WClean: 4, WSave: 2, WReload: 3, WAdversarial: 30})
+			WMint: 40, WDeliver: 15, WClean: 4, WSave: 2, WReload: 3, WAdversarial: 30, WMark: 3, WUnmark: 1})
 
 	hprop("C09", histRule+"after every event HashHeight, CheckHeader, GetHeader and PreviousHash of every header ever minted, and tape-chosen GetHeaders ranges, are compared with the reference tree (height, best-chain flag = ancestor-or-equal of the reported tip, predecessor); non-trivial = at least one reorganisation",
 		25, 900, nil, nil, "exploration",
